@@ -427,6 +427,30 @@ def check_tree(case, ctx, rng, m, X, kind, depth, suffix):
                           "leaf %d: %d points inside the box are routed elsewhere, %d routed points are outside" % (
                               leaf, a, b), cfg=cfg, box=box)
             break
+    # ---- the documented two-step use with the parents computed once, while ANOTHER tree is being looked at in between:
+    # parents of this tree, then parents and a range of a second tree, then the ranges of this tree with its own parents
+    try:
+        from mlinsights.mltree.tree_structure import tree_node_parents
+        from sklearn.tree import DecisionTreeRegressor as _DTR2
+        pa = tree_node_parents(m)
+        rb = numpy.random.RandomState(len(leaves) + d)
+        Xb2 = rb.randn(40, d)
+        other = _DTR2(max_depth=3, random_state=1).fit(Xb2, Xb2[:, -1] * 3 + rb.randn(40) * 0.1)
+        tree_node_parents(other)
+        for lf_ in tree_leave_index(other)[:3]:
+            tree_node_range(other, lf_)
+        for leaf in leaves[:20]:
+            b_pre = numpy.asarray(tree_node_range(m, leaf, pa), dtype=float)
+            b_now = numpy.asarray(tree_node_range(m, leaf), dtype=float)
+            ctx.hit("node_range.with_precomputed_parents")
+            if b_pre.shape != b_now.shape or not numpy.array_equal(b_pre, b_now, equal_nan=True) or not numpy.array_equal(
+                    in_box(b_pre, Q), app == leaf):
+                ctx.violation(K + "tree_node_range/precomputed-parents-differ" + S, "leaf %d: the range computed with the "
+                              "parents obtained before another tree was inspected is not the box of the points routed to "
+                              "the leaf" % leaf, cfg=cfg)
+                break
+    except Exception as e:
+        ctx.violation(K + "tree_node_range/raised/%s/precomputed-parents" % type(e).__name__, str(e)[:120], cfg=cfg)
     if suffix:
         return
     if len(leaves) >= 3:
